@@ -204,7 +204,7 @@ func checkC07(c *Ctx, r *Report) {
 		r.add("C07.f", "fieldflow", fi.Key+":no-names", "a field is embedded iff its declaration has no names", []string{fi.Key}, []string{w.pos(fi.Decl.Pos())}, viol)
 	}
 
-	ruleHelperShape(c, r, "C07.d", helperShape{Fn: "generator/swagen/swagtool.IsFieldRequired", AllowedCalls: []string{"strings.Split"}, MustConsts: []string{",", "required"},
+	ruleHelperShape(c, r, "C07.d", helperShape{Fn: "generator/swagen/swagtool.IsFieldRequired", AllowedCalls: []string{"strings.Split"}, MustConsts: []string{",", "required"}, OnlyConsts: []string{",", "required"},
 		Why: "a property is listed under `required` iff `required` is one of the comma-separated rules of its validate tag"})
 
 	ruleIRWriters(c, r, "C07.b", "definitions.StructMetadata", "definitions.FieldMetadata", "definitions.EnumMetadata", "definitions.AliasMetadata", "definitions.NakedAliasMetadata", "definitions.Models")
